@@ -36,6 +36,16 @@ type OSEvent struct {
 type OSWrap struct {
 	Sys    internal.SystemOS
 	Before func(ev OSEvent) error
+	// Mangle, if set, may replace the handle a successful Create / Open / OpenFile returned (e.g. by
+	// one whose reads or writes fail): a file that opens but then cannot be read or written.
+	Mangle func(ev OSEvent, f *os.File) *os.File
+}
+
+func (o *OSWrap) mangle(call, label, path string, f *os.File, err error) (*os.File, error) {
+	if err == nil && o.Mangle != nil {
+		return o.Mangle(OSEvent{Call: call, Label: label, Path: path}, f), nil
+	}
+	return f, err
 }
 
 func (o *OSWrap) hook(call, label, path, path2 string) error {
@@ -49,7 +59,8 @@ func (o *OSWrap) Create(op, name string) (*os.File, error) {
 	if err := o.hook("Create", op, name, ""); err != nil {
 		return nil, err
 	}
-	return o.Sys.Create(op, name)
+	f, err := o.Sys.Create(op, name)
+	return o.mangle("Create", op, name, f, err)
 }
 func (o *OSWrap) Mkdir(op, path string, perm os.FileMode) error {
 	if err := o.hook("Mkdir", op, path, ""); err != nil {
@@ -67,13 +78,15 @@ func (o *OSWrap) Open(op, name string) (*os.File, error) {
 	if err := o.hook("Open", op, name, ""); err != nil {
 		return nil, err
 	}
-	return o.Sys.Open(op, name)
+	f, err := o.Sys.Open(op, name)
+	return o.mangle("Open", op, name, f, err)
 }
 func (o *OSWrap) OpenFile(op, name string, flag int, perm os.FileMode) (*os.File, error) {
 	if err := o.hook("OpenFile", op, name, ""); err != nil {
 		return nil, err
 	}
-	return o.Sys.OpenFile(op, name, flag, perm)
+	f, err := o.Sys.OpenFile(op, name, flag, perm)
+	return o.mangle("OpenFile", op, name, f, err)
 }
 func (o *OSWrap) ReadDir(op, name string) ([]os.DirEntry, error) {
 	if err := o.hook("ReadDir", op, name, ""); err != nil {
@@ -131,6 +144,9 @@ type CacheSim struct {
 	pages map[string]map[int64][]byte // db name -> offset -> cached bytes
 	// OnPos is called inside every position change (DB.setPos), i.e. at LiteFS's own linearisation point.
 	OnSHM func(db *litefs.DB) // called inside InvalidateSHM
+	// Fail, if set, is asked before every invalidation; a non-nil error is returned to LiteFS instead
+	// (the kernel refused the notification).
+	Fail  func(kind string) error
 	OnPos func(db *litefs.DB)
 	// Entries counts InvalidateEntry calls by name.
 	Entries map[string]int
@@ -141,12 +157,22 @@ func newCacheSim() *CacheSim {
 }
 
 func (c *CacheSim) InvalidateDB(db *litefs.DB) error {
+	if f := c.Fail; f != nil {
+		if err := f("db"); err != nil {
+			return err
+		}
+	}
 	c.mu.Lock()
 	delete(c.pages, db.Name())
 	c.mu.Unlock()
 	return nil
 }
 func (c *CacheSim) InvalidateDBRange(db *litefs.DB, offset, size int64) error {
+	if f := c.Fail; f != nil {
+		if err := f("range"); err != nil {
+			return err
+		}
+	}
 	c.mu.Lock()
 	for off, b := range c.pages[db.Name()] {
 		if off < offset+size && offset < off+int64(len(b)) {
@@ -156,21 +182,37 @@ func (c *CacheSim) InvalidateDBRange(db *litefs.DB, offset, size int64) error {
 	c.mu.Unlock()
 	return nil
 }
+
 // InvalidateSHM: the kernel drops its cached pages of the -shm file. A page that a client has dirtied through its
 // mapping is written back first (that is what OnSHM plays, if set).
 func (c *CacheSim) InvalidateSHM(db *litefs.DB) error {
+	if f := c.Fail; f != nil {
+		if err := f("shm"); err != nil {
+			return err
+		}
+	}
 	if f := c.OnSHM; f != nil {
 		f(db)
 	}
 	return nil
 }
 func (c *CacheSim) InvalidatePos(db *litefs.DB) error {
+	if f := c.Fail; f != nil {
+		if err := f("pos"); err != nil {
+			return err
+		}
+	}
 	if f := c.OnPos; f != nil {
 		f(db)
 	}
 	return nil
 }
 func (c *CacheSim) InvalidateEntry(name string) error {
+	if f := c.Fail; f != nil {
+		if err := f("entry"); err != nil {
+			return err
+		}
+	}
 	c.mu.Lock()
 	c.Entries[name]++
 	// a dropped database loses its cached data with its inode
